@@ -93,7 +93,7 @@ def run_builtins(rep, tier, workers):
         rep.add_tlc(res)
         for k, v in res.coverage.items():
             cov[k] = cov.get(k, 0) + v[0]
-        recs = res.json
+        recs = sorted(res.json, key=lambda r: json.dumps(r, sort_keys=True))   # TLC's print order depends on worker timing
         res.stdout = ''
         for rec in recs:
             if 'strtab' in rec:
